@@ -145,6 +145,7 @@ type machine struct {
 	charCache map[string][2]*Term
 	memo      map[string]value
 	fold      map[string]*Term
+	permCache map[string][]int
 	smallVars map[string]*inputVar
 	runesMax  int
 	digitsMax int
@@ -751,11 +752,21 @@ func (m *machine) mapOrder(mp *mapV) []int {
 	if !m.w.cfg.MapPerms || m.mapOrderMode != "explore" || n < 2 {
 		return order
 	}
+	// one order per map object and size per run
+	ck := fmt.Sprintf("%d/%d", mp.id, n)
+	if m.permCache == nil {
+		m.permCache = map[string][]int{}
+	}
+	if o, ok := m.permCache[ck]; ok {
+		return o
+	}
+	defer func() { m.permCache[ck] = order }()
 	// choose a permutation: all n! for n<=3, rotations (+reverse) beyond
 	if n <= 3 {
 		perms := permutations(n)
 		c := m.choose(len(perms), "maporder")
-		return perms[c]
+		order = perms[c]
+		return order
 	}
 	c := m.choose(n+1, "maporder")
 	if c == n {
@@ -806,6 +817,28 @@ var byteRangeRe = reStar(reRange(0, 255))
 // model extracts a model of PC ∧ extra for the harness inputs (and evaluates
 // the given additional terms). ok=false when unsat/unknown.
 func (m *machine) model(extra *Term, also []*Term) (map[string]modelVal, map[string]sexp, Result) {
+	if extra == nil && len(also) == 0 {
+		// every input already has a concrete value: no solver needed
+		all := true
+		for _, n := range m.inputOrder {
+			if _, ok := m.concrete[n]; !ok {
+				all = false
+				break
+			}
+		}
+		if all && m.pcAllConcrete() {
+			res := map[string]modelVal{}
+			for _, n := range m.inputOrder {
+				c := m.concrete[n]
+				if m.inputs[n].Kind == "bool" {
+					res[n] = modelVal{T: "bool", B: c.B}
+				} else {
+					res[n] = modelVal{T: "int", I: c.I}
+				}
+			}
+			return res, map[string]sexp{}, Sat
+		}
+	}
 	res := Unknown
 	for i, ss := range m.sessions {
 		if ss.s.dead || ss.s.server {
@@ -818,6 +851,18 @@ func (m *machine) model(extra *Term, also []*Term) (map[string]modelVal, map[str
 		res = r
 	}
 	return nil, nil, res
+}
+
+// pcAllConcrete: the path condition only mentions concretised inputs.
+func (m *machine) pcAllConcrete() bool {
+	for _, c := range m.pc {
+		for _, v := range m.termVars(c) {
+			if _, ok := m.concrete[v]; !ok {
+				return false
+			}
+		}
+	}
+	return true
 }
 
 func (m *machine) modelOn(si int, ss *sess, extra *Term, also []*Term) (map[string]modelVal, map[string]sexp, Result) {
